@@ -51,13 +51,13 @@ theorem repairOps_sub_diffOps (c : Cluster) (j i : Nat) (rf : Bool) (hagree : Ag
     · simp only [htr, Bool.false_eq_true, if_false] at hso
       have hrem : ∀ s', so ∈ removalOps s' (diff (absSet c j) (absSet c i)).2 → so.op ∈ diffOps (absSet c j) (absSet c i) := by
         intro s' h
-        obtain ⟨p, hp, _, rfl⟩ := (mem_removalOps _ _ _).1 h
+        obtain ⟨p, hp, _, rfl⟩ := of_mem_removalOps _ _ _ h
         unfold diffOps
         exact List.mem_append_right _ (List.mem_map.2 ⟨p, hp, rfl⟩)
       have hmod : ∀ s', so ∈ modificationOps s' (fetched (getNode c i).ks.store (diff (absSet c j) (absSet c i)).1) →
           so.op ∈ diffOps (absSet c j) (absSet c i) := by
         intro s' h
-        obtain ⟨d, hd, _, rfl⟩ := (mem_modificationOps _ _ _).1 h
+        obtain ⟨d, hd, _, rfl⟩ := of_mem_modificationOps _ _ _ h
         obtain ⟨m, hm, hm1⟩ := fetched_origin _ _ d hd
         have hrec := fetched_rec (getNode c i).ks hagree _ d hd
         have hlisted := ((diff_exact (absSet c j) (absSet c i) m.1 m.2).1.1 hm).1
